@@ -949,6 +949,10 @@ static void fault_handler(int sig, siginfo_t* si, void* uc_) {
   p = put_str(p, " pc=");
   p = put_u64(p, pc >= g_image_base ? pc - g_image_base : pc);
   if (sig == SIGSEGV || sig == SIGBUS) {
+#ifdef __x86_64__
+    p = put_str(p, " write=");
+    p = put_u64(p, (uint64_t)((uc->uc_mcontext.gregs[REG_ERR] >> 1) & 1));
+#endif
     uint64_t off = 0, size = 0;
     int is_lib = 0, owner = 0;
     int b = sim_describe(si->si_addr, &off, &size, &is_lib, &owner);
